@@ -1,9 +1,12 @@
 (* C01 — the invariant with one exempted quota ("Mid s ex"), and the max/min setters on it. *)
 From Coq Require Import List ZArith Bool Lia.
-From Verif Require Import Lib.Vec2 C01.Model C01.Spec C01.Proofs_Base C01.Proofs_Walk C01.Proofs_Delta
+From Verif Require Import Lib.VecN C01.Model C01.Spec C01.Proofs_Base C01.Proofs_Walk C01.Proofs_Delta
   C01.Proofs_PodList C01.Proofs_Sections C01.Proofs_Shape C01.Proofs_SetMaxMin.
 Import ListNotations.
 Open Scope Z_scope.
+
+Section WithDim.
+Context {D : Dim}.
 
 Record Mid (s : state) (ex : Z) : Prop := {
   mid_shape : ShapeOk (st_sh s);
@@ -205,3 +208,5 @@ Proof.
   rewrite E. cbn [st_sh st_r st_u st_p].
   exact (conj M1 (conj eq_refl (conj M2 (conj eq_refl (conj eq_refl M3))))).
 Qed.
+
+End WithDim.
